@@ -320,7 +320,9 @@ class Server(_Server_):
 
         try:
             res = function(*args, **kwds)
-        except Exception as e:
+        except BaseException as e:
+            # Not only `Exception`: e.g. a `SystemExit` raised by the method would otherwise
+            # end this thread, and the caller would find the connection closed.
             msg = ('#ERROR', self._wrap_user_exc(e))
             return msg
 
